@@ -135,3 +135,18 @@ impl Report {
         std::fs::write(path, serde_json::to_string(&self.to_json()).unwrap()).unwrap();
     }
 }
+
+/// Abandons one state of every incremental interface half-way (dropped without finalisation, or with its finalisation refused).
+/// Whatever the library keeps between calls - buffer pools, caches, thread-locals - now holds the remains; results computed
+/// afterwards must not care.
+pub fn disturb(n: u64) {
+    use dryoc::classic::{crypto_auth as ca, crypto_generichash as cg, crypto_onetimeauth as co, crypto_sign as csg};
+    let junk = vec![0xA5u8; 1 + (n % 200) as usize];
+    let _ = catch(|| {
+        { let mut st = cg::crypto_generichash_init(None, 32).unwrap(); cg::crypto_generichash_update(&mut st, &junk); }
+        { let mut st = cg::crypto_generichash_init(Some(&[7u8; 32]), 64).unwrap(); cg::crypto_generichash_update(&mut st, &junk); let mut o = [0u8; 65]; let _ = cg::crypto_generichash_final(st, &mut o); }
+        { let mut st = co::crypto_onetimeauth_init(&[3u8; 32]); co::crypto_onetimeauth_update(&mut st, &junk); }
+        { let mut st = ca::crypto_auth_init(&[3u8; 32]); ca::crypto_auth_update(&mut st, &junk); }
+        { let mut st = csg::crypto_sign_init(); csg::crypto_sign_update(&mut st, &junk); }
+    });
+}
